@@ -1,5 +1,6 @@
 """Shared by C02 / C03 / C06 (and C12): run the real internal compiler with its ancilla
-choices logged, run the Lean compiler model on the same input and choices, canonicalise, compare;
+choices logged, run the Lean compiler model on the same input and choices, canonicalise, compare
+(the model follows the compiler with the repairs docs/fixes/CC-*.diff);
 evaluate correctness / cleanliness / xor-oracle of the *real* gate list with the independent
 classical simulator of harness/circ.py."""
 from __future__ import annotations
@@ -226,12 +227,12 @@ def source_cases(ctx, n_bool, n_int, n_defs, suite_stride=1):
 
 # ------------------------------------------------------------------ the shared check
 
-FAMILIES = {
-    "expqmap-cache": {"cacheHit", "xorRepl", "destAmongArgs"},
-    "inplace-not": {"inplaceNot"},
-    "temp-uncomputed-early": {"markNamedTemp"},
-    "uncompute-stale": {"staleReplay"},
-}
+# Events the Lean model raises at the sites where the unrepaired compiler went wrong.  The four defect
+# families of C02/C03/C06 (expqmap-cache, inplace-not, temp-uncomputed-early, uncompute-stale) are repaired
+# (known_findings.json: status fixed; the model follows the repaired compiler), so there is nothing to attribute
+# a failure to: a failing compilation is a VIOLATION whether or not an event occurred.  The events are kept
+# as diagnostics in the violation report (`markNamedTemp` can no longer be raised: every named qubit is promoted).
+DIAGNOSTIC_EVENTS = {"cacheHit", "xorRepl", "destAmongArgs", "inplaceNot", "staleReplay"}
 
 
 def compile_both(label, kind, payload, optn, unc):
@@ -320,8 +321,15 @@ def run_compiler_check(ctx, res, prop):
             continue
         reqs.append(model_request(out["inputs"], out["ej"], out["rets"], job[4], out["code"]["choices"]))
         idx.append(k)
+    # the model's reproduction of CPython's `list(set(l))` (order of the or-chain in compile_or), on its own
+    so_lists = [[ctx.rng.randint(0, ctx.rng.choice([6, 12, 40, 200])) for _ in range(ctx.rng.randint(0, 12))]
+                for _ in range(2000 if thorough else 400)]
+    so_rep = ctx.model([dict(op="comp.setorder", lists=so_lists)])
+    if so_rep is not None:
+        for l, o in zip(so_lists, so_rep[0].get("orders", [])):
+            if o != list(set(l)):
+                res.disagree(dict(label="setorder", list=l), "iteration order of set(list) differs", code=list(set(l)), model=o)
     replies = ctx.model(reqs)
-    active = {f["id"]: f for f in ctx.findings if f.get("_active")}
     stats = dict(event_free=0, event_free_bad=0, failing=0, y1_only=0, in_fragment=0, in_fragment_bad=0)
     for n, k in enumerate(idx):
         job, out = jobs[k], outs[k]
@@ -360,17 +368,19 @@ def run_compiler_check(ctx, res, prop):
         events = set(rep.get("events", [])) if rep and "error" not in rep else set()
         # the instance lies in the class of one of the Lean fragment theorems (C02_fragment_partial: single tree-like
         # definition; C02_fragment_consts: + constants; C02_fragment_multi / C02_fragment_named: straight-line
-        # definition lists, uncompute off – the driver's `in_fragment` is their disjunction for this run)
-        # and the model reproduces the real gate list: a theorem applies, a wrong output can only be new
+        # definition lists – the driver's `in_fragment` is their disjunction for this run; it reports the last two
+        # for uncompute off only, the theorems cover uncompute on as well since the port to the repaired compiler,
+        # docs/notes/PORT-PENDING.md).  All four are proved for the model of the repaired compiler; a model
+        # instance of a class that the Lean validator rejects is a disagreement (it would refute the theorem)
         in_frag = bool(prop == "C02" and rep is not None and not mismatch and rep.get("in_fragment"))
         frag_thm = "C02_fragment_partial"
         if in_frag:
             stats["in_fragment"] += 1
             if not rep.get("valid", True):
                 res.disagree(case, "model instance inside the class of a C02 fragment theorem rejected by the Lean validator "
-                             "(contradicts the theorem: model and proof out of sync)", code=None, model=dict(valid=False))
+                             "(contradicts the theorem's statement)", code=None, model=dict(valid=False))
         # C03 / C06: the classes of C03_fragment_partial (inCleanFragment) / C06_fragment_partial (inXorFragment),
-        # reported by the driver for uncompute=True runs; same rule: inside the class a failure is never a known finding
+        # reported by the driver for uncompute=True runs (theorems parked like the C02 ones); same rule
         if prop in ("C03", "C06") and unc and rep is not None and not mismatch:
             key, frag_thm, vkey = (("in_clean_fragment", "C03_fragment_partial", "clean") if prop == "C03"
                                    else ("in_xor_fragment", "C06_fragment_partial", "xor"))
@@ -380,7 +390,7 @@ def run_compiler_check(ctx, res, prop):
                 bad = (not rep.get(vkey, True)) or (prop == "C06" and rep.get("ret_never_control") is False)
                 if bad:
                     res.disagree(case, f"model instance inside the class of {frag_thm} rejected by the Lean validator "
-                                 "(contradicts the theorem: model and proof out of sync)", code=None,
+                                 "(contradicts the theorem's statement)", code=None,
                                  model={vkey: rep.get(vkey), "ret_never_control": rep.get("ret_never_control")})
         if rep is not None and not mismatch:
             if not events:
@@ -392,32 +402,18 @@ def run_compiler_check(ctx, res, prop):
                 res.disagree(case, "Lean validator and python simulator disagree on the same gate list",
                              code=dict(fail=fail, detail=detail), model=dict(fail=lean_fail))
         if fail:
+            # no open finding of C02/C03/C06 is left to attribute to: every failing compilation is a violation
             stats["failing"] += 1
-            attributed = []
             if in_frag:
                 stats["in_fragment_bad"] += 1
-                what += f" (instance inside the class of theorem {frag_thm}: never a known finding)"
-            elif rep is not None and not mismatch:
-                if not j["mapped"]:
-                    fid = f"{prop}-ret-flat-names"
-                    if fid in active:
-                        attributed.append(fid)
-                else:
-                    for fam, evs in FAMILIES.items():
-                        fid = f"{prop}-{fam}"
-                        if events & evs and fid in active:
-                            attributed.append(fid)
-                    if prop == "C06" and rep.get("ret_never_control") is False and f"{prop}-ret-as-control" in active:
-                        attributed.append(f"{prop}-ret-as-control")
-            if attributed:
-                for fid in attributed:
-                    res.known(fid)
-            else:
-                if rep is not None and not mismatch and not events:
-                    stats["event_free_bad"] += 1
-                res.violation(case, what, code=dict(detail=detail, gates=canon_gates(code["gates"])[:40], qmap=code["qmap"]),
-                              model=dict(reproduces=(rep is not None and not mismatch), events=sorted(events)),
-                              expected="see detail.expected")
+                what += f" (instance inside the class of theorem {frag_thm})"
+            if rep is not None and not mismatch and not events:
+                stats["event_free_bad"] += 1
+            res.violation(case, what, code=dict(detail=detail, gates=canon_gates(code["gates"])[:40], qmap=code["qmap"]),
+                          model=dict(reproduces=(rep is not None and not mismatch),
+                                     diagnostic_events=sorted(events & DIAGNOSTIC_EVENTS),
+                                     other_events=sorted(events - DIAGNOSTIC_EVENTS)),
+                          expected="see detail.expected")
         elif mismatch and rep is not None:
             res.disagree(case, mismatch, code=dict(gates=canon_gates(code["gates"])[:40], qmap=code["qmap"], n=code["num_qubits"]),
                          model=dict(gates=canon_gates(rep["gates"])[:40] if "gates" in rep else None, qmap=rep.get("qmap"),
@@ -444,17 +440,21 @@ def run_compiler_check(ctx, res, prop):
     if prop == "C02":
         res.notes.append(f"{stats['in_fragment']} compiled instances lie in the decidable class of a Lean fragment theorem "
                          "(C02_fragment_partial: one tree-like definition; C02_fragment_consts: + constants; "
-                         "C02_fragment_multi / C02_fragment_named: straight-line definition lists with re-used freed ancillas, "
-                         "uncompute off) with the model reproducing the real gate list: there a theorem applies and a failure "
-                         "is never attributed to a known finding")
+                         "C02_fragment_multi / C02_fragment_named: straight-line definition lists with re-used freed ancillas; "
+                         "the driver reports these two for uncompute off, the theorems hold for uncompute on and off) with "
+                         "the model reproducing the real gate list; all four are proved for the model of the repaired compiler; "
+                         f"{stats['in_fragment_bad']} of these instances fail")
     if prop in ("C03", "C06"):
         thm, cls = (("C03_fragment_partial", "inCleanFragment") if prop == "C03" else ("C06_fragment_partial", "inXorFragment"))
         res.notes.append(f"{stats['in_fragment']} compiled instances lie in the decidable class of the Lean theorem {thm} "
                          f"({cls}: one definition, tree-like expression over the arguments, every Or with at most two "
-                         "arguments, the return name requested) with the model reproducing the real gate list: there the "
-                         "theorem applies and a failure is never attributed to a known finding")
+                         "arguments, the return name requested) with the model reproducing the real gate list; the theorem is "
+                         "PORT-PENDING (proved for the model of the unrepaired compiler, parked until the semantic proofs are "
+                         f"ported); {stats['in_fragment_bad']} of these instances fail")
     res.notes.append("decided per compiled instance (exhaustive over its inputs) by validators whose soundness is proved; "
-                     "the compiler model reproduces the real gate list exactly, ancilla choices logged from the real run")
+                     "the compiler model reproduces the real gate list exactly, ancilla choices logged from the real run, "
+                     "the iteration order of set(erets) in compile_or reproduced by the model (pySetOrder); no open finding "
+                     "of this property is left: every failing compilation is a violation, with or without model events")
     return res
 
 
